@@ -71,9 +71,13 @@ def gen_case(rng: random.Random, tier: str) -> dict:
                     {"kind": "num", "dtype": "float64", "values": [round(rng.gauss(0, 1), 5) for _ in range(m)]},
                     {"kind": "num", "dtype": rng.choice(["int64", "Int64", "uint8", "float32"]), "values": [float(rng.randint(0, 3)) for _ in range(m)]},
                     {"kind": "bool", "dtype": rng.choice(["bool", "boolean"]), "values": [rng.random() < 0.5 for _ in range(m)]},
+                    # (a column of the other kind is of the other kind whether or not it holds any observation)
+                    {"kind": "num", "dtype": "float64", "values": [None] * m},
                 ])
         else:
             change = catspec([rng.choice("pq") for _ in range(m)], rng.choice(["category", "object", "str"]), ["p", "q"])
+            if rng.random() < 0.2:
+                change = catspec([None] * m, rng.choice(["category", "object"]), ["p", "q"])
     elif scen in ("lost", "new", "new_null"):
         cats = [v for v in used if v in L]
         if not cats:
